@@ -6,6 +6,7 @@ oracle on the real code: decode(encode p) = [p], re-encode identity, concatenati
 import itertools, json
 from nintendo.nex import prudp
 from codec_prudp import *
+import C03_many
 
 LEVEL = "proof"
 
@@ -152,11 +153,21 @@ def run(ctx):
                 "lite streams cut at every position / every partition when short and at random positions when long (buffer compared after "
                 "every call); a malformed stream (all truncations of short datagrams, +-1 on every header byte, bit flips, splices, the "
                 "v0 negative-length corner, garbage); raw out-of-range packets through the encoders; encode_options/decode_options and the "
-                "selector exhaustively on their small axes. The property oracle (round trip, re-encode, concat, chunking) runs on the real "
+                "selector exhaustively on their small axes; MANY packets in one datagram / stream chunk (17, 32, 100, 1000, around every power of two, "
+                "random counts; ack bursts, small, option-bearing and full-size packets) at codec level (one piece and cut at packet boundaries, "
+                "in groups, at random positions, in blocks: after every decode call the packets delivered = the packets completely fed) and "
+                "through the real receive loops PRUDPSocketTransport.handle / PRUDPDatagramTransport.process / PRUDPClientTransport.process "
+                "(every packet dispatched before the loop reads on). The property oracle (round trip, re-encode, concat, chunking) runs on the real "
                 "code for every well-formed case. distinct non-trivial = distinct model lines not ending in a rejection of random garbage")
     lines, reals, meta = [], [], []
 
+    budget = [600_000_000]     # characters of correspondence lines kept in memory; the unchanged tree needs < 10% of it. A decoder
+                               # whose buffer runs away (e.g. a buffer shared between objects) would otherwise need tens of GB
     def add(line, real, m):
+        cost = len(line) + len(real)
+        if cost > budget[0]:
+            ctx.tag("correspondence line dropped: memory budget exhausted (runaway buffers)"); return
+        budget[0] -= cost
         lines.append(line); reals.append(real); meta.append(m)
 
     codecs = []
@@ -536,6 +547,10 @@ def run(ctx):
                                   {"transport": tr, "version": ver, "codec": {"sv": sv, "cv": cv, "fv": fv, "key": key},
                                    "packet": dict(zip(FIELDS, [x.hex() if isinstance(x, bytes) else x for x in t])), "result": res_dec(r)[:300]})
 
+    # ---- 8. MANY whole packets in ONE chunk / datagram (17, 32, 100, 1000, ...): codec level and through the real receive
+    # loops of the transports (C03_many.py) ---------------------------------------------------------------
+    C03_many.run_many(ctx, add, codecs)
+
     # ---- run the model, diff -----------------------------------------------------------------------------
     outs = drv.batch(lines)
     diffs = []
@@ -573,6 +588,8 @@ def run(ctx):
 def replay(ctx, path):
     r = json.load(open(path))
     print(json.dumps({k: (v if len(repr(v)) < 400 else repr(v)[:400]) for k, v in r.items()}, indent=1))
+    if str(r.get("family", "")).startswith("many-"):
+        return C03_many.replay_many(r)
     if "codec" in r and "packet" in r and "enc" in r.get("codec", {}):
         cd = r["codec"]
         c = Codec(cd["enc"], cd["signature_version"], cd["checksum_version"], cd["flags_version"], cd["access_key"])
